@@ -20,6 +20,9 @@
                              bookkeeping this is the same traversal, for HDF5 the identifier returned lives in the last file
      close <c>               cgio_close_file(c)                               -> "close <status>"
      data <c> <type> <n> <all|block|strided>   node /T_<type> (C1 B1 I4 U4 I8 U8 R4 R8 X4 X8): set dimensions, write, read back
+     bad <c> <entry> <class>  a data call with an invalid argument (see the op's comment): every cgio data entry point x every
+                             class of argument that is rejected after objects were opened
+     strand <c> <kind>       (HDF5) abandon an open identifier of kind dataset|group|attr|datatype on a node of the file
      cycle <k>               (oracle runs) marks the end of one repetition of the session: prints heap / fds / h5
                              (h5 counts file-less identifiers too: see c17_common.c)
    a link "a>b!" / a walk step "b!" is the link node X<b> whose stored path /Nope does not exist in F<b> (dangling path)
@@ -194,6 +197,76 @@ int main(int argc, char **argv)
                 if (!st) st = cgio_read_data_type(c, id, &one, &last, &two, a, 1, &mcount, &one, &mcount, &one, buf);
             }
             printf("data %s", st ? "err" : "ok"); dump_state();
+        } else if (sscanf(line, "strand %d %15s", &c, a) == 2) {
+            /* strand <c> <dataset|group|attr|datatype>: (HDF5) open one more identifier of that kind on the node /T_R8 of the file
+               behind handle c with libhdf5 directly and abandon it -- what a call that fails half-way does.  The close of the
+               file "frees up all open accesses" (ADFH_Database_Close): identifiers of every kind. */
+            double root = 0, id = 0; static double buf[8]; int st; cgsize_t dim = 8; hid_t hid, x = -1; long q;
+            if (!is_h5) { printf("strand na"); dump_state(); continue; }
+            st = cgio_get_root_id(c, &root);
+            if (!st && cgio_get_node_id(c, root, "T_R8", &id)) {
+                st = cgio_create_node(c, root, "T_R8", &id);
+                if (!st) st = cgio_set_dimensions(c, id, "R8", 1, &dim);
+                if (!st) st = cgio_write_all_data(c, id, buf);
+            }
+            if (st) { printf("strand setup"); dump_state(); continue; }
+            to_HDF_ID(id, hid);
+            q = h5_count();
+            if (!strcmp(a, "dataset")) x = H5Dopen2(hid, " data", H5P_DEFAULT);
+            else if (!strcmp(a, "group")) x = H5Gopen2(hid, ".", H5P_DEFAULT);
+            else if (!strcmp(a, "attr")) x = H5Aopen(hid, "name", H5P_DEFAULT);
+            else {      /* a committed datatype whose link is removed at once: the object lives as long as the identifier */
+                x = H5Tcopy(H5T_NATIVE_INT);
+                if (x >= 0 && H5Tcommit2(hid, " strand", x, H5P_DEFAULT, H5P_DEFAULT, H5P_DEFAULT) < 0) { H5Tclose(x); x = -1; }
+                if (x >= 0) H5Ldelete(hid, " strand", H5P_DEFAULT);
+            }
+            printf("strand %s ids+%ld", x >= 0 ? "ok" : "err", h5_count() - q); dump_state();
+        } else if (sscanf(line, "bad %d %15s %15s", &c, a, b) == 3) {
+            /* bad <c> <entry> <class>: a data call with an invalid argument of the given class on the node /T_R8 (8 x R8) of the
+               file behind handle c -- the call must fail (or be harmless) and leave nothing behind that survives the close.
+               entries: rall rblock rdata wall wallt wblock wdata wdatat      (cgio_read_all_data_type, cgio_read_block_data_type,
+                        cgio_read_data_type, cgio_write_all_data, cgio_write_all_data_type, cgio_write_block_data, cgio_write_data,
+                        cgio_write_data_type)
+               classes: badtype (a type name that does not exist), nulltype (no type name), mismatch (character type for numeric data), start0, endbig,
+                        startgtend, stride0 (file range), mstart0, mendbig, mstride0 (memory range), rank0, rank2 (memory rank 2
+                        holding 4 elements for 8), msmall (memory range larger than the memory dimensions) */
+            double root = 0, id = 0; static double buf[64]; int st; cgsize_t dim = 8;
+            cgsize_t s1[16], e1[16], d1[16], mdim[16], ms[16], me[16], md[16], bs = 2, be = 5; int rank = 1, q;
+            const char *ty = "R8";
+            memset(buf, 0x11, sizeof buf);
+            for (q = 0; q < 16; q++) { s1[q] = 1; e1[q] = q ? 1 : 8; d1[q] = 1; mdim[q] = q ? 1 : 8; ms[q] = 1; me[q] = q ? 1 : 8; md[q] = 1; }
+            st = cgio_get_root_id(c, &root);
+            if (!st && cgio_get_node_id(c, root, "T_R8", &id)) {
+                st = cgio_create_node(c, root, "T_R8", &id);
+                if (!st) st = cgio_set_dimensions(c, id, "R8", 1, &dim);
+                if (!st) st = cgio_write_all_data(c, id, buf);
+            }
+            if (!strcmp(b, "badtype")) ty = "Q9";
+            else if (!strcmp(b, "nulltype")) ty = NULL;
+            else if (!strcmp(b, "mismatch")) ty = "C1";
+            else if (!strcmp(b, "start0")) { s1[0] = 0; bs = 0; }
+            else if (!strcmp(b, "endbig")) { e1[0] = 99; be = 99; }
+            else if (!strcmp(b, "startgtend")) { s1[0] = 6; e1[0] = 3; bs = 6; be = 3; }
+            else if (!strcmp(b, "stride0")) d1[0] = 0;
+            else if (!strcmp(b, "mstart0")) ms[0] = 0;
+            else if (!strcmp(b, "mendbig")) me[0] = 99;
+            else if (!strcmp(b, "mstride0")) md[0] = 0;
+            else if (!strcmp(b, "rank0")) rank = 0;
+            else if (!strcmp(b, "rank2")) { rank = 2; mdim[0] = mdim[1] = 2; me[0] = me[1] = 2; }   /* 4 elements for 8 */
+            else if (!strcmp(b, "rank13")) rank = 13;           /* probe only: above the 12 dimensions the arrays may have */
+            else if (!strcmp(b, "msmall")) mdim[0] = 2;
+            if (st) { printf("bad setup"); dump_state(); continue; }
+            q = h5_count();
+            if (!strcmp(a, "rall")) st = cgio_read_all_data_type(c, id, ty, buf);
+            else if (!strcmp(a, "rblock")) st = cgio_read_block_data_type(c, id, bs, be, ty, buf);
+            else if (!strcmp(a, "rdata")) st = cgio_read_data_type(c, id, s1, e1, d1, ty, rank, mdim, ms, me, md, buf);
+            else if (!strcmp(a, "wall")) st = cgio_write_all_data(c, id, buf);
+            else if (!strcmp(a, "wallt")) st = cgio_write_all_data_type(c, id, ty, buf);
+            else if (!strcmp(a, "wblock")) st = cgio_write_block_data(c, id, bs, be, buf);
+            else if (!strcmp(a, "wdata")) st = cgio_write_data(c, id, s1, e1, d1, rank, mdim, ms, me, md, buf);
+            else st = cgio_write_data_type(c, id, s1, e1, d1, ty, rank, mdim, ms, me, md, buf);
+            /* ids+<k>: HDF5 identifiers the call itself left open (0 on ADF) */
+            printf("bad %s ids+%d", st ? "err" : "ok", h5_count() - q); dump_state();
         } else if (sscanf(line, "close %d", &c) == 1) {
             int st = cgio_close_file(c);
             printf("close %d", st); dump_state();
